@@ -4,10 +4,10 @@ import os
 import re
 from framework import REPO, ROOT
 
-TIE = ["Nsq.Tie.AdminGate", "Nsq.Tie.AdminFanout"]
+TIE = ["Nsq.Tie.AdminGate", "Nsq.Tie.AdminFanout", "Nsq.Tie.AdminProg", "Nsq.Tie.AdminNotify"]
 PROPS = ["Nsq.Props.C17"]
 STREAMS = [("gate_identity", "^TestVerifE7Identity$"), ("gate_fanout", "^TestVerifE7Fanout$"),
-           ("gate_config", "^TestVerifE7Config$")]
+           ("gate_config", "^TestVerifE7Config$"), ("gate_prog", "^TestVerifE7Prog$")]
 
 
 def unhex(s):
@@ -62,6 +62,8 @@ def is_admin(f):
 
 def property_fails_on(op, impl):
     """Evaluate C17 on one request and the implementation's own answer. Returns text or None."""
+    if op.startswith("fan "):
+        return prog_oracle(op, impl)
     f = parse_op(op)
     a = impl.split()
     if len(a) != 4:
@@ -83,6 +85,9 @@ def property_fails_on(op, impl):
                 bad = fanout_missing(f, reqs, status)
                 if bad:
                     return bad
+        bad = notify_oracle(f, status, notes)
+        if bad:
+            return bad
     if segs and segs[0] == "config" and f.get("cidr") == "1":
         out = f.get("innet") == "0" or f.get("lfail", "-") != "-" and "6e65742e53706c6974486f7374506f7274" in f["lfail"] \
             or "6970203d3d206e696c" in f.get("other", "")
@@ -92,6 +97,38 @@ def property_fails_on(op, impl):
                     m, segs[-1], status, cfgw)
     if m == "GET" and under_api and status == 403:
         return "read-only view /%s answered 403" % "/".join(segs)
+    return None
+
+
+def notify_oracle(f, status, notes):
+    """Exactly one notification per performed action, none without an admin identity / a configured endpoint /
+    a performed action — from the request and the answer alone (no Lean). pause/unpause/empty announce before
+    they look at the upstream error, so a 502 of theirs still notifies (what the code does, see docs/C17.md)."""
+    segs, m = f["segs"], f["m"]
+    got = [] if notes == "-" else notes.split(",")
+    where = "%s /%s" % (m, "/".join(segs))
+    if not is_admin(f) or f.get("notify") != "1":
+        if got:
+            return "%s notified %s %s" % (where, ",".join(got), "without an admin identity" if not is_admin(f)
+                                          else "although no notification endpoint is configured")
+        return None
+    want = []
+    if m == "POST" and len(segs) == 2:
+        if status == 200:
+            want = ["create_topic"] + (["create_channel"] if unhex(f.get("bchan", "-")) != "" else [])
+    elif m == "POST" and len(segs) in (3, 4):
+        act = unhex(f.get("action", "-"))
+        if status in (200, 502) and act in ("pause", "unpause", "empty"):
+            want = [act + ("_channel" if len(segs) == 4 else "_topic")]
+    elif m == "DELETE" and len(segs) == 3 and segs[1] == "nodes":
+        if status == 200:
+            want = ["tombstone_topic_producer"]
+    elif m == "DELETE" and len(segs) in (3, 4):
+        if status == 200:
+            want = ["delete_channel" if len(segs) == 4 else "delete_topic"]
+    if sorted(got) != sorted(want):
+        return "%s answered %d and notified [%s]; one notification per performed action would be [%s]" % (
+            where, status, ",".join(got), ",".join(want))
     return None
 
 
@@ -143,6 +180,80 @@ def fanout_missing(f, reqs, status):
         for l in lk:
             if not any(p.startswith("P:%s/" % l[0]) and need_lookupd in p for p in posts):
                 return "%s: nsqlookupd %s did not receive %s (recorded: %s)" % (where, l[0], need_lookupd.strip("/?"), reqs)
+    return None
+
+
+NSQD_CMD = {"createChannel": "/channel/create", "deleteTopic": "/topic/delete", "deleteChannel": "/channel/delete",
+            "pauseTopic": "/topic/pause", "unpauseTopic": "/topic/unpause", "emptyTopic": "/topic/empty",
+            "pauseChannel": "/channel/pause", "unpauseChannel": "/channel/unpause", "emptyChannel": "/channel/empty",
+            "tombstone": "/topic/delete"}
+LOOKUPD_CMDS = {"createTopic": ["/topic/create"], "createChannel": ["/topic/create", "/channel/create"],
+                "deleteTopic": ["/topic/delete"], "deleteChannel": ["/channel/delete"], "tombstone": ["/topic/tombstone"]}
+
+
+def prog_oracle(op, impl):
+    """"Every relevant nsqd and nsqlookupd is contacted exactly once; errors are aggregated, never dropped",
+    evaluated on what the recording stubs saw when the real ClusterInfo method ran (no Lean involved): the
+    outcome of every recorded request follows from the world (a down stub fails everything, a POST-failing
+    stub fails POSTs), so the number of errors the method must report is known."""
+    f = {}
+    for tok in op.split()[1:]:
+        k, _, v = tok.partition("=")
+        f[k] = v
+    a = impl.split()
+    if len(a) != 3 or not a[1].startswith("errs="):
+        return "malformed implementation answer %r" % impl
+    res, errs = a[0], int(a[1][5:])
+    phases = [] if a[2] == "-" else [ph.split("|") for ph in a[2].split(";")]
+    recs = [r for ph in phases for r in ph]
+    kind = f["kind"]
+    lk = [] if f.get("lk", "-") == "-" else [t.split(":") for t in f["lk"].split(",")]
+    nd = {} if f.get("nd", "-") == "-" else {t.split(":")[0]: t.split(":") for t in f["nd"].split(",")}
+    lkd = {l[0]: l for l in lk}
+    where = "ClusterInfo %s (topic %s)" % (kind, unhex(f.get("topic", "-")))
+
+    def failed(r):
+        sym = r[2:].split("/", 1)[0]
+        if r.startswith("G:"):
+            return (sym in lkd and lkd[sym][1] == "0") or (sym in nd and nd[sym][1] == "0")
+        return (sym in lkd and lkd[sym][3] == "0") or (sym in nd and nd[sym][3] == "0")
+    nfail = sum(1 for r in recs if failed(r))
+    dead_possible = any("X0" in l[2].split("+") for l in lk if l[2] != "-") or f.get("node") == "X0"
+    if len(set(recs)) != len(recs):
+        dup = sorted(set(r for r in recs if recs.count(r) > 1))
+        return "%s: contacted more than once: %s (recorded: %s)" % (where, ", ".join(dup), a[2])
+    if res == "none" and nfail > 0:
+        return "%s returned nil although %d request(s) failed: %s" % (where, nfail, ", ".join(r for r in recs if failed(r)))
+    if res == "partial" and (errs < nfail or errs > nfail + (1 if dead_possible else 0)):
+        return "%s reports %d error(s) but %d recorded request(s) failed: %s" % (
+            where, errs, nfail, ", ".join(r for r in recs if failed(r)))
+    if res == "partial" and errs == 0:
+        return "%s returned an empty error list" % where
+    posts = [r for r in recs if r.startswith("P:")]
+    if kind in ("createTopic", "createChannel", "tombstone") or (kind in LOOKUPD_CMDS and res != "full"):
+        for c in LOOKUPD_CMDS[kind]:
+            for l in lk:
+                if not any(r.startswith("P:%s%s?" % (l[0], c)) for r in posts):
+                    return "%s: nsqlookupd %s did not receive %s (recorded: %s)" % (where, l[0], c.strip("/"), a[2])
+    if kind in NSQD_CMD and res != "full" and kind != "tombstone":
+        if lk or kind == "createChannel":
+            prods = set(x for l in lk if l[1] == "1" and l[2] != "-" for x in l[2].split("+"))
+        else:
+            na = [] if f.get("na", "-") == "-" else f["na"].split(",")
+            prods = set(n for n in na if n in nd and nd[n][1] == "1" and nd[n][2] == "1")
+        for p_ in sorted(prods):
+            if p_ in nd and not any(r.startswith("P:%s%s?" % (p_, NSQD_CMD[kind])) for r in posts):
+                return "%s: nsqd %s, reported as a producer, never received %s (recorded: %s)" % (
+                    where, p_, NSQD_CMD[kind].strip("/"), a[2])
+    if kind not in ("createTopic", "createChannel", "tombstone"):
+        seen_post = False
+        for r in recs:
+            if r.startswith("P:"):
+                seen_post = True
+            elif seen_post:
+                return "%s: producer lookup %s after a command had already been sent (recorded: %s)" % (where, r, a[2])
+        if res == "full" and posts:
+            return "%s: the producer lookup failed as a whole but commands were sent: %s" % (where, ", ".join(posts))
     return None
 
 
@@ -202,6 +313,7 @@ def run(ctx):
                 "/config request; oracle: property_fails_on evaluates C17 on the implementation's own answer")
     gen_ok, _ = ctx.gen("e7_admin")
     ctx.gen("e7_fanout")
+    ctx.gen("e7_prog")
     ok, log = ctx.lean_build(TIE + PROPS)
     if not ok:
         ctx.lean_obligation_failed("lake build " + " ".join(TIE + PROPS), log[-1500:])
@@ -221,8 +333,10 @@ def run(ctx):
     ctx.corr["routes"] = routes.strip().count(";") + 1 if routes.strip() else 0
     # corpus first: committed requests with the answer the real server gave when they were recorded; the model
     # (over the table regenerated now) must still give it and the property must hold on it
-    cp = os.path.join(ROOT, "corpus", "C17", "gate_regressions.ops")
-    if os.path.exists(cp) and not ctx.replay_in:
+    for cp in [os.path.join(ROOT, "corpus", "C17", "gate_regressions.ops"),
+               os.path.join(ROOT, "corpus", "C17", "prog_regressions.ops")]:
+        if not os.path.exists(cp) or ctx.replay_in:
+            continue
         cops = open(cp).read().splitlines()
         cexp = open(cp[:-4] + ".expect").read().splitlines()
         rc, mout = ctx.driver("e7", stdin_path=cp)
@@ -232,9 +346,9 @@ def run(ctx):
                 ctx.broken_ties.append("corpus line violates the property: " + o[:80])
             if want != got:
                 ctx.log("corpus regression: `%s`\n  recorded=%s\n     model=%s" % (o[:300], want, got))
-                corr_broken.append("corpus C17/gate_regressions line")
-        ctx.corr["corpus_lines"] = len(cops)
-    binp = ctx.go_test_binary("nsqadmin", ["e7/gate_test.go"], "e7gate")
+                corr_broken.append("corpus C17/%s line" % os.path.basename(cp))
+        ctx.corr["corpus_lines"] = ctx.corr.get("corpus_lines", 0) + len(cops)
+    binp = ctx.go_test_binary("nsqadmin", ["e7/gate_test.go", "e7/prog_test.go"], "e7gate")
     if not binp:
         ctx.broken_ties.append("harness e7/gate_test.go does not compile against the current tree")
         corr_broken.append("harness build")
@@ -251,16 +365,22 @@ def run(ctx):
                 corr_broken.append("harness %s exit %s" % (test, rc))
                 continue
             for l in out.splitlines():
-                if l.startswith("E7-"):
+                if l.startswith("E7-NOTIFY-BAD "):
+                    ctx.violation("notify:" + l.split()[2], "notification content: " + l[14:], "harness line: %s\n" % l)
+                elif l.startswith("E7-"):
                     ctx.corr.setdefault("distribution", []).append(l)
             ops = open(opsp).read().splitlines()
             impl = open(implp).read().splitlines()
+            if os.environ.get("VERIF_KEEP_STREAMS"):   # for refreshing corpus/C17/*.ops by hand
+                import shutil
+                shutil.copy(opsp, os.environ["VERIF_KEEP_STREAMS"])
+                shutil.copy(implp, os.environ["VERIF_KEEP_STREAMS"])
             rc, mout = ctx.driver("e7", stdin_path=opsp)
             model = mout.splitlines()
             if ctx.replay_in:
                 # --replay <file>: the streams are a deterministic product; show the wanted requests side by side
                 want = [l[4:] if l.startswith("op: ") else l for l in open(ctx.replay_in).read().splitlines()]
-                want = [norm_op(l) for l in want if l.startswith("gate ")]
+                want = [norm_op(l) for l in want if l.startswith("gate ") or l.startswith("fan ")]
                 for o, i, mline in zip(ops, impl, model):
                     if norm_op(o) in want:
                         print("op:    " + o[:600])
@@ -269,21 +389,17 @@ def run(ctx):
                         ctx.count_case(o)
                         bad = property_fails_on(o, i)
                         if bad:
-                            f = parse_op(o)
-                            ctx.violation("gate:%s:/%s" % (f["m"], "/".join(pattern_of(f["segs"]))), bad,
-                                          "op: %s\nimpl: %s\n" % (o, i))
+                            ctx.violation(key_of(o), bad, "op: %s\nimpl: %s\n" % (o, i))
                 continue
             for o, i in zip(ops, impl):
-                ctx.count_case(o, nontrivial=(" m=GET " not in o) or " p=636f6e666967," in o)
+                ctx.count_case(o, nontrivial=o.startswith("fan ") or (" m=GET " not in o) or " p=636f6e666967," in o)
             for o, i in list(zip(ops, impl))[:2]:
                 ctx.add_sample({"op": o[:300], "impl": i[:300]})
             # direct oracle on every implementation answer
             for idx, (o, i) in enumerate(zip(ops, impl)):
                 bad = property_fails_on(o, i) or cidr_oracle(o, i)
                 if bad:
-                    f = parse_op(o)
-                    key = "gate:%s:/%s" % (f["m"], "/".join(pattern_of(f["segs"])))
-                    ctx.violation(key, bad, "request: %s\nop: %s\nimpl: %s\n" % (describe(f), o, i))
+                    ctx.violation(key_of(o), bad, "request: %s\nop: %s\nimpl: %s\n" % (describe_op(o), o, i))
             diffs = ctx.diff_lines(impl, model, name)
             for idx, a, b in diffs:
                 ctx.log("model/impl disagree on `%s`:\n   impl=%s\n  model=%s" % (ops[idx][:400], a, b))
@@ -307,6 +423,23 @@ def run(ctx):
         ctx.broken_without_input(ctx.broken_ties + corr_broken,
                                  "search: %d generated requests; the direct oracle found no unauthenticated request "
                                  "that was answered other than 403 or reached an upstream" % ctx.evaluations)
+
+
+def key_of(op):
+    """Finding key: the route shape of a gate request, the method of a direct ClusterInfo call."""
+    if op.startswith("fan "):
+        return "fanout:" + dict(t.partition("=")[::2] for t in op.split()[1:]).get("kind", "?")
+    f = parse_op(op)
+    return "gate:%s:/%s" % (f["m"], "/".join(pattern_of(f["segs"])))
+
+
+def describe_op(op):
+    if op.startswith("fan "):
+        f = dict(t.partition("=")[::2] for t in op.split()[1:])
+        return "ClusterInfo %s topic=%s channel=%s node=%s, stubs: lookupds %s, configured nsqds %s, nsqds %s" % (
+            f.get("kind"), unhex(f.get("topic", "-")), unhex(f.get("channel", "-")), f.get("node"), f.get("lk"),
+            f.get("na"), f.get("nd"))
+    return describe(parse_op(op))
 
 
 def describe(f):
